@@ -276,6 +276,12 @@ class TimeDependentLinearPDE(LinearPDE):
         if self.grids_equal and np.array_equal(self.time_steps[-1:], self._time_obs):
             solution_obs = solution[..., -1]
 
+        # Same grids and every observation time is a time step: read off the
+        # stored levels (exact; also possible where no spline exists)
+        elif self.grids_equal and np.isin(self._time_obs, self.time_steps).all():
+            time_steps = np.asarray(self.time_steps)
+            solution_obs = solution[..., [int(np.flatnonzero(time_steps == t)[0]) for t in self._time_obs]]
+
         # Interpolate solution in time and space to the observation
         # time and space
         else:
